@@ -29,6 +29,8 @@ Step(s0, e) ==
     [] e.op = "txs_update" -> [ok |-> TRUE, why |-> "", dev |-> "",
                                s |-> IF e.prov = "ok" THEN Refresh(TxsUpdate(s, TRep(e.rep)), [i \in 1..Len(e.confs) |-> [t |-> e.confs[i][1], conf |-> e.confs[i][2]]])
                                      ELSE TxsUpdate(s, TRep(e.rep))]
+    [] e.op = "co_spend" -> [ok |-> TRUE, why |-> "", dev |-> "",
+                             s |-> MarkSpent(s, {<<e.ins[i][1], e.ins[i][2]>> : i \in 1..Len(e.ins)})]
     [] e.op = "tx" ->
          LET q == Q(e.q) IN
          IF ~e.created THEN [ok |-> TRUE, s |-> s, why |-> "", dev |-> ""]        \* refusing is always allowed (C07 forbids wrong transactions)
